@@ -207,3 +207,34 @@ Definition rt_cast (k : ckind) (From To : ity) (x : Z) : rres :=
          symmetric around 0), e.g. downcast::<felt252, i8>(-1) = Some(-1) *)
       Ok (ROpt (if is_felt' From then rt_from_felt (rng To) x else rt_downcast (rng To) x))
   end.
+
+(* ---------- wrapping / overflowing / checked / saturating variants (core::num::traits) ---------- *)
+Inductive pfam := PWrapping | POverflowing | PChecked | PSaturating.
+Inductive aop := AAdd | ASub | AMul.
+Definition exact (a : aop) (x y : Z) : Z :=
+  match a with AAdd => x + y | ASub => x - y | AMul => x * y end.
+(* the representative of v in the type's range, modulo 2^bits *)
+Definition wrap (T : ity) (v : Z) : Z := (v - tmin T) mod 2 ^ bits T + tmin T.
+Definition rt_variant (f : pfam) (a : aop) (T : ity) (x y : Z) : rres :=
+  let v := exact a x y in
+  match f with
+  | PWrapping => Ok (RInt (wrap T v))
+  | POverflowing => Ok (RPair (wrap T v) (if in_rangeb T v then 0 else 1))   (* (T, bool) *)
+  | PChecked => Ok (ROpt (if in_rangeb T v then Some v else None))
+  | PSaturating => Ok (RInt (if v <? tmin T then tmin T else if tmax T <? v then tmax T else v))
+  end.
+Inductive pop := PBin (o : op) | PVar (f : pfam) (a : aop).
+Definition part_rt (p : pop) (T : ity) (a b : Z) : rres :=
+  match p with
+  | PBin o => eval o T (enc T a) (enc T b)
+  | PVar f ar => rt_variant f ar T a b
+  end.
+
+(* core::internal::num::{uint,sint}_{inc,dec} (corelib/src/internal/num.cairo), the helpers the const
+   folder substitutes for overflowing add/sub of a literal 1: (arm, value) *)
+Definition num_inc (sgn : bool) (T : ity) (x : Z) : nat * Z :=
+  if x =? tmax T then ((if sgn then 2 else 1)%nat, tmin T)   (* trim_max(t) = None: Err/Overflow(Bounded::MIN) *)
+  else (0%nat, x + 1).
+Definition num_dec (T : ity) (x : Z) : nat * Z :=
+  if x =? tmin T then (1%nat, tmax T)                        (* trim_min(t) = None: Err/Underflow(Bounded::MAX) *)
+  else (0%nat, x - 1).
